@@ -48,6 +48,8 @@ func checkC06(c *Ctx) {
 	if c.Tier == "thorough" {
 		cfgs = append(cfgs, "darwin", "freebsd")
 	}
+	c.Rule("C06-R18", "resize delivery works again after Resume: the size last reported to the application (t.w, t.h) is stored only where the resize event is posted, so a window that changed while the terminal was handed back is noticed by the next resize()")
+	c.Expect("C06-R18", 1)
 	c.Rule("C06-R17", "Fini returns (does not panic) on a screen whose Init failed: what Init creates (the quit channel, a Tty it opens itself) is closed or called on the shutdown path only behind a non-nil test or the running flag, in the terminfo screen as in the simulation")
 	c.Expect("C06-R17", 2)
 	c.Rule("C06-R16", "the read deadline that gets the input loop out of a blocked Read keeps working: a Tty implementation that opens its own handle and wakes its reader with a deadline never calls Fd() on that handle (Fd switches the descriptor to blocking mode; Suspend and Fini would wait for the next key)")
@@ -79,6 +81,7 @@ func checkC06(c *Ctx) {
 		checkReadLoopPassesStop(c, p, "C06-R15")
 		checkDeadlineHandleStaysPollable(c, p, "C06-R16")
 		checkFiniSafeBeforeInit(c, p, "C06-R17", "tScreen")
+		checkReportedSizeStoredWithEvent(c, p, "C06-R18", "tScreen")
 		checkFiniSafeBeforeInit(c, p, "C06-R17", "simscreen")
 		for _, f := range []string{"tty", "ti"} {
 			ws := []string{}
